@@ -121,3 +121,65 @@ FAMILIES = {
     "argument-order": argument_order_docs,
     "directive-location": directive_location_docs,
 }
+
+
+# ---------------------------------------------------------------------------------------------
+# merged parent fields whose CHILD selections conflict, each side reached directly / through an inline
+# fragment / a named spread / a spread nested two levels: all 16 side combinations, both orders
+
+
+def _side(style, child, ptype, frags, prefix):
+    import copy
+
+    child = copy.deepcopy(child)
+    if style == "direct":
+        return [child]
+    if style == "inline":
+        return [I(None, [child])]
+    if style == "spread":
+        frags.append([prefix + "Side", ptype, [], [child]])
+        return [SP(prefix + "Side")]
+    frags.append([prefix + "Outer", ptype, [], [SP(prefix + "Inner")]])
+    frags.append([prefix + "Inner", ptype, [], [child]])
+    return [SP(prefix + "Outer")]
+
+
+SIDE_STYLES = ["direct", "inline", "spread", "nested"]
+
+
+def merged_parent_docs():
+    import copy
+
+    kinds = [
+        # (tag, schema, root type, parent field + args, child type, child A, child B, label)
+        ("different-fields", "C", "Q", ("box", {"id": '"b"'}), "Box", F("v", alias="k"), F("echo", alias="k"), "OverlappingFieldsCanBeMergedChecker"),
+        ("different-arguments", "C", "Q", ("box", {"id": '"b"'}), "Box", F("echo", args={"i": "1"}), F("echo", args={"i": "2"}), "OverlappingFieldsCanBeMergedChecker"),
+        ("return-shape", "R", "Query", ("node", {}), "Node", I("A", [F("l", alias="x")]), I("B", [F("ll", alias="x")]), "OverlappingFieldsCanBeMergedChecker"),
+        ("same-field", "C", "Q", ("box", {"id": '"b"'}), "Box", F("v", alias="k"), F("v", alias="k"), None),
+        ("same-arguments", "C", "Q", ("box", {"id": '"b"'}), "Box", F("echo", args={"i": "1", "e": "RED"}), F("echo", args={"e": "RED", "i": "1"}), None),
+        ("same-shape", "R", "Query", ("node", {}), "Node", I("A", [F("l", alias="x")]), I("B", [F("l", alias="x")]), None),
+    ]
+    for tag, schema, root, (pf, pargs), ctype, ca, cb, label in kinds:
+        forms = ["direct", "aliased", "one-in-fragment", "three-parents"] if tag in ("different-fields", "same-field") else ["direct"]
+        for form in forms:
+            for sa in SIDE_STYLES:
+                for sb in SIDE_STYLES:
+                    for order in ("ab", "ba"):
+                        frags = []
+                        first, second = (ca, cb) if order == "ab" else (cb, ca)
+                        s1 = _side(sa, first, ctype, frags, "Left")
+                        s2 = _side(sb, second, ctype, frags, "Right")
+                        alias = "p" if form == "aliased" else None
+                        p1 = F(pf, s1, alias=alias, args=dict(pargs))
+                        p2 = F(pf, s2, alias=alias, args=dict(pargs))
+                        sels = [p1, p2]
+                        if form == "one-in-fragment":
+                            frags.append(["Holder", root, [], [p2]])
+                            sels = [p1, SP("Holder")]
+                        elif form == "three-parents":
+                            neutral = F(pf, [F("__typename")], args=dict(pargs))
+                            sels = [p1, neutral, p2]
+                        yield schema, "merged-parents:%s:%s:%s-%s:%s" % (tag, form, sa, sb, order), label, {"doc": mkdoc(mkop(copy.deepcopy(sels)), frags), "vars": {}}
+
+
+FAMILIES["merged-parents"] = merged_parent_docs
